@@ -173,6 +173,12 @@ OPS = [
     ('m_doc_cache_vars', lambda em, e: em.expand('!', {'cache': e['C1'], 'variables': {'lang': 'de', 'charset': 'ISO-8859-1'}})),
     ('m_rows_cache_limit', lambda em, e: em.expand('rows+a', {'cache': e['C1'], 'snippets': {'rows': 'tr*4>td'}, 'maxRepeat': 2})),
     ('m_rows_cache', lambda em, e: em.expand('rows+a', {'cache': e['C1'], 'snippets': {'rows': 'tr*4>td'}})),
+    # the same parent name / the same class string met under different configurations
+    ('m_implicit_default', lambda em, e: em.expand('section>.intro+em>.k', e['A'])),
+    ('m_implicit_inline', lambda em, e: em.expand('section>.note+em>.k', {'options': {'inlineElements': ['section', 'span', 'a']}})),
+    ('bem_card', lambda em, e: em.expand('section.card_big>p.-x', e['B'])),
+    ('bem_context', lambda em, e: em.expand('.-title', {'options': {'bem.enabled': True},
+                                                         'context': {'name': 'div', 'attributes': {'class': 'card_big'}}})),
     ('seq_edit_call_config', seq_edit_call_config),
     ('after_edit_call_config', lambda em, e: em.expand('br+zq', {'options': {'output.selfClosingStyle': 'xhtml', 'output.format': False}, 'snippets': {'zq': 'span.q'}})),
     ('seq_edit_global_config', seq_edit_global_config),
